@@ -92,6 +92,22 @@ def main():
 
 CHECKS_NA = {}
 
+CHECKS["C01"] = dict(
+    category="exploration", design="§2 C01",
+    technique="bounded-exhaustive enumeration of (method shape, argument/return value) cases; real proc macro under rustc vs real C backend under gcc, executed under ASan/UBSan, compared with a source-level value oracle",
+    text="Every parameter shape, return shape, struct layout (all ordered field tuples over the field alphabet), Option/Result arm, slice/string kind, opaque pointer form, DiplomatWrite "
+         "method and callback signature of the grammar becomes a generated Rust method compiled by the real macro; a generated C driver calls each through the real generated header with "
+         "every value of the per-type alphabets, and the Rust-side log / C-side dump must equal the oracle computed from the Rust source types; nm symbols must equal header prototypes.",
+    note="Trusted: the value-model compiler (lib/vlib/abi.py) emitting Rust/C literals and dumps, gcc, the x86-64 SysV ABI as the platform under test (other targets not executed).")
+
+CHECKS["C10"] = dict(
+    category="exploration", design="§2 C10",
+    technique="same enumeration as C01 restricted to Option/Result shapes, plus sizeof-vs-size_of comparison for every result record and declaration comparison of std/DiplomatOption spelling pairs",
+    text="Every payload type allowed in Option/Result, in parameter, return and struct-field position: optional pointers must be NULL exactly when absent, all other optionals/results "
+         "must arrive as {payload, is_ok} with the right arm and payload bytes, C's sizeof of each record must equal rustc's size_of (unit arms add no payload), and the two spellings "
+         "of each optional must yield identical C declarations and identical behaviour.",
+    note="Trusted: as C01. Shares the generated crate and headers with C01.")
+
 CHECKS["C11"] = dict(
     category="exploration", design="§2 C11",
     technique="exhaustive enumeration of enum definitions; rustc's discriminants as oracle; C/C++ compiled and run, JS executed in node, Dart/Kotlin/nanobind output interpreted by strict template parsers",
